@@ -4,36 +4,9 @@ of `check.py C04`.  Tied here: the two integer helpers nested in `Tiles.__getite
 (`_sz`); the methods around them move `Shape2d` / index objects about and stay under the behavioural correspondence.
 The ties are stated against the one-axis model functions `getItem` / `tileShape` with the arguments the methods pass:
 the normalised index and the tile count of the axis.
+
+The theorems live in OdcGeo/Props/GenC04/*.lean, one compilation unit per tied function or small group; this file only
+imports them all (`lake build OdcGeo.Props.GenC04`).
 -/
-import OdcGeo.Gen.C04
-import OdcGeo.Gen.Tie
-import OdcGeo.Props.C04
-
-namespace OdcGeo.C04
-open OdcGeo.Gen OdcGeo.C17
-
-/-- `Tiles.__getitem__`: the model's one-axis `getItem` is `_slice` applied to the normalised index -/
-theorem tie_tiles_slice (N n : Int) (idx : PIdx) :
-    Gen.C04.tiles_slice (normSlice idx (count N n)) N n = getItem N n idx := by
-  tie_auto [Gen.C04.tiles_slice, getItem]
-
-/-- `Tiles.tile_shape`: the model's one-axis `tileShape` is `_sz(i, number of tiles, tile size, axis size)` -/
-theorem tie_tiles_sz (N n i : Int) :
-    Gen.C04.tiles_sz i (count N n) n N = tileShape N n i := by
-  tie_auto [Gen.C04.tiles_sz, tileShape]
-
-/-! ## headline theorems of `Props/C04.lean`, transferred -/
-
-/-- `tiles_partition` (exact partition: every pixel lies in exactly one tile) with the region computed by the source
-`_slice` on the normalised tile index -/
-theorem gen_tiles_partition (N n : Int) (hn : 0 < n) (y : Int) (hy : 0 ≤ y ∧ y < N) :
-    ∃! i : Int, (0 ≤ i ∧ i < count N n) ∧
-      ∃ s, Gen.C04.tiles_slice (normSlice (.idx i) (count N n)) N n = .ok s ∧ s.Has y := by
-  simp only [tie_tiles_slice]; exact tiles_partition N n hn y hy
-
-/-- `tileShape_error_iff` for the source `_sz` -/
-theorem gen_tile_shape_error_iff (N n : Int) (i : Int) :
-    Gen.C04.tiles_sz i (count N n) n N = .error .indexError ↔ (i < -count N n ∨ count N n ≤ i) := by
-  rw [tie_tiles_sz]; exact tileShape_error_iff N n i
-
-end OdcGeo.C04
+import OdcGeo.Props.GenC04.TilesSlice
+import OdcGeo.Props.GenC04.TilesSz
